@@ -430,6 +430,7 @@ func init() {
 			r.Eval(evals)
 			cls.flush(r)
 		})
+		c19Kernel(r)
 		r.Assume("clock readings non-decreasing; gaps between updates <= 2^61 ns; one clock reading per update")
 		r.Assume("for gaps >= 2^23 s the elapsed time in float64 seconds is not exact to the nanosecond: the expected duration ceil(dt) is accepted +-(1 s + 2 ulp)")
 		r.Assume("only necessary conditions from the statement are asserted: a missing step, the sign and size of p below the 500 ppm bound and the start of tracking are not judged")
@@ -438,6 +439,7 @@ func init() {
 			"gaps: fixed intervals, jitter, boundary pool around 0/1 s/2 s/6 s, log-uniform 1 us..1e4 s, sub-second, whole seconds +-1 ns, rare gaps up to 2^61 ns; offsets: log-uniform to 1e18 ns, pool around +-1 ms and int64 extremes, converging, constant, clamp region; "+
 			"weights: pool around 3/50/150 incl. Inf/NaN/negative, constant, uniform. Oracle per update from the history only: Step only at the first update of the epoch that is not its first, lies > 2 s after the first and has weight > 3, only with |offset| > 1 ms, amount == offset, at most once; "+
 			"Adjust never at the first update of an epoch, duration > 0 and == ceil(time since previous update) in whole seconds, |p| <= 500e-6 x duration (+1 ns), frequency finite; panics are violations. "+
+			"Kernel leg: the real driver/clocks.SystemClock in child processes under strace (clock_adjtime logged and answered by injection, the sandbox clock untouched): scripted Step/Adjust sequences in real time and the real Pll through start-up, step, new epoch and tracking; every kernel call must be accounted for by a request (frequency + offset/duration; restore after the whole-second duration, never earlier unless a step cuts it short; step in normalised nanoseconds; new epoch per step). "+
 			"classes = actuation kinds observed (step with/without epoch bump, no-step, clamped+/-/unclamped slew, weight ranges, zero-dt, epoch restarts by cause, blocked waiting states); distinct_nontrivial = distinct actuation traces", 14)
 	})
 }
